@@ -31,7 +31,7 @@ __all__ = ["OFXTree", "TreeBuilder", "ParseError"]
 # stdlib imports
 import re
 import xml.etree.ElementTree as ET
-from typing import Tuple, Optional
+from typing import List, Tuple, Optional
 import logging
 
 
@@ -149,6 +149,28 @@ class TreeBuilder(ET.TreeBuilder):
         """,
         re.VERBOSE,
     )
+
+    def __init__(self, *args, **kwargs):
+        super().__init__(*args, **kwargs)
+        # Names of the elements currently open.  ``ET.TreeBuilder`` itself neither
+        # compares end tags with the open element nor minds unclosed elements.
+        self._open: List[str] = []
+
+    def start(self, tag, attrs):
+        self._open.append(tag)
+        return super().start(tag, attrs)
+
+    def end(self, tag):
+        if not self._open or self._open[-1] != tag:
+            expected = f"</{self._open[-1]}>" if self._open else "no end tag"
+            raise ParseError(f"End tag </{tag}> where {expected} was expected")
+        self._open.pop()
+        return super().end(tag)
+
+    def close(self):
+        if self._open:
+            raise ParseError(f"Element <{self._open[-1]}> is never closed")
+        return super().close()
 
     def feed(self, data: str) -> None:
         """
